@@ -1209,6 +1209,38 @@ func drawSnippet(t *rapid.T, name string, e genEnv) []Op {
 			ops = append(ops, Op{K: "evstart", B: b, N: 1}, Op{K: "evend", B: b, A: a, N: 1, Src: "evtok", SA: a})
 		}
 		ops = append(ops, Op{K: "smssetup", B: b, S: pick(t, "number", "+15550001", "+15550009")}, Op{K: "smsconfirm", B: b, A: a, Src: "smssess"})
+	case "smsrekey":
+		// an account that already has SMS 2FA starts an enrolment for another number, and between setup and confirm visits
+		// the pages that text the number on file (remove, validate) or asks for the code again: whatever confirms the new
+		// number must have been texted to the new number
+		if !c.HasSetup("sms") || !c.Has("auth") {
+			return nil
+		}
+		var owners []int
+		for i, ac := range c.Accounts {
+			if ac.Phone != "" && !ac.TOTP {
+				owners = append(owners, i)
+			}
+		}
+		if len(owners) == 0 {
+			return nil
+		}
+		a = rapid.SampledFrom(owners).Draw(t, "smsowner")
+		ops = append(ops, Op{K: "newsess", B: b}, Op{K: "login", B: b, A: a, Src: "pw", SA: a}, Op{K: "smsvalidate", B: b, A: a, Src: "sms", SA: a})
+		if c.EmailAuth {
+			ops = append(ops, Op{K: "evstart", B: b, N: 1}, Op{K: "evend", B: b, A: a, N: 1, Src: "evtok", SA: a})
+		}
+		ops = append(ops, Op{K: "smssetup", B: b, S: pick(t, "newnumber", "+15557770001", "+15550009")})
+		if chance(t, "ratelimitover", 75) {
+			ops = append(ops, Op{K: "advance", N: pick(t, "wait", 12, 20, 45)})
+		}
+		for k := rapid.IntRange(1, 2).Draw(t, "detours"); k > 0; k-- {
+			ops = append(ops, Op{K: "smsresend", B: b, S: pick(t, "page", "remove", "confirm", "confirm", "validate")})
+			if chance(t, "wait2", 30) {
+				ops = append(ops, Op{K: "advance", N: 12})
+			}
+		}
+		ops = append(ops, Op{K: "smsconfirm", B: b, A: a, Src: pick(t, "codefrom", "smssess", "smssess", "sms", "smsany"), SA: a})
 	}
 	return ops
 }
